@@ -138,6 +138,13 @@ def cut_loop(I, st, s, k, spec, kind, iterable):
     if getattr(s, "orelse", None):
         raise OutOfSubset("loop with else clause")
     assigned, mutated = modified_names(body)
+    # binding check: the variables the loop specification says the loop writes (explicit `writes`) must still be assigned / mutated by the loop body.  If the code was refactored so that the accumulator has
+    # another name, the invariant would silently talk about an unrelated variable of the same name: that is "contract does not bind"
+    # (undecided), never a violation.
+    declared = set(getattr(spec, "writes", None) or [])
+    missing_w = sorted(nm for nm in declared if nm not in assigned and nm not in mutated)
+    if missing_w:
+        raise ContractError(f"contract does not bind: {lname} no longer writes {missing_w} (the loop specification names them as written)")
     if kind == "for":
         n, getter = sym_iter_view(I, st, iterable)
         tnames, _ = modified_names([ast.Assign(targets=[s.target], value=ast.Constant(value=None))])
